@@ -97,6 +97,21 @@ def apply(c, good):
         if c["cut"] >= 0:
             out = out[:keep + 4 * c["cut"]]
         return out
+    if k == "hunks1":
+        L = lambda v: (v & 0xffffffff).to_bytes(4, "big")
+        h = c["h"]
+        out = L(0x3f3) + L(0) + L(2) + L(0) + L(1) + L(c["tab"]) + L(2)
+        t = h["t"]
+        body = L(0x11110000)
+        if t in ("code", "data", "debug", "name", "unit", "bad"):
+            out += L({"code": 0x3e9, "data": 0x3ea, "debug": 0x3f1, "name": 0x3e8, "unit": 0x3e7, "bad": 0x12345678}[t]) + L(h["n"]) + body
+        elif t == "bss":
+            out += L(0x3eb) + L(h["n"]) + body
+        elif t == "reloc32":
+            out += L(0x3ec) + L(h["n"]) + L(0) + L(0) + L(0)
+        elif t == "symbol":
+            out += L(0x3f0) + L(h["n"]) + body + L(0x100) + L(0)
+        return out + L(0x3e9) + L(2) + L(0x4e714e71) + L(0x4e754e71) + L(0x3f2)
     if k == "truncate":
         return bytes(data[:c["n"]])
     if k == "flip":
@@ -194,7 +209,7 @@ def run(tier, seed):
     if tier == "quick":
         # quick: the grammar-built amiga files and the word cases are sampled
         heavy = [x for x in fcases if x["k"] in ("word", "hunks")]
-        fcases = [x for x in fcases if x["k"] not in ("word", "hunks")] + rnd.sample(heavy, 700)
+        fcases = [x for x in fcases if x["k"] not in ("word", "hunks")] + rnd.sample(heavy, 700)       # (hunks1: all 324, also in quick)
     if len(fcases) < 1500 or len(sessions) < 300:
         raise C.InfraError("generators produced %d / %d cases" % (len(fcases), len(sessions)))
     if tier == "thorough":
@@ -221,6 +236,8 @@ def run(tier, seed):
             key = "file:%s:word%d" % (c["fmt"], c["idx"])
         elif c["k"] == "hunks":
             key = "file:amiga:hunk:%s%s" % (c["h"]["t"], ":cut" if c["cut"] >= 0 else "")
+        elif c["k"] == "hunks1":
+            key = "file:amiga:first hunk:%s:table entry %s" % (c["h"]["t"], "negative" if c["tab"] < 0 else ("0" if c["tab"] == 0 else "positive"))
         elif c["k"] == "field":
             key = "file:%s:%s.%s" % (c["fmt"], c["part"], c["f"]["name"])
         else:
@@ -235,8 +252,9 @@ def run(tier, seed):
         script = "".join(("%s %s" % (x["cmd"], x["arg"])).strip() + "\n" for x in sq) + "quit\n"
         cpu = OTHER[(i // 5) % len(OTHER)] if i % 5 == 4 else "msp430"
         meta[cid] = ("session:" + " ; ".join(x["cmd"] + ("(" + re.sub(r"[0-9]", "#", x["arg"])[:12] + ")" if x["arg"] else "") for x in sq)
-                     + ("@" + cpu if cpu != "msp430" else ""), script)
-        jobs.append((exe, wd, cid, "t.hex", good["hex"], ["-" + cpu], script))
+                     + ("@" + cpu if cpu != "msp430" else "") + ("@nocpu" if i % 7 == 3 else ""), script)
+        # (every seventh session is started without a CPU option)
+        jobs.append((exe, wd, cid, "t.hex", good["hex"], ["-" + cpu] if i % 7 != 3 else [], script))
     # one-command sessions and interactive asm blocks under every ending (quit, exit, end of input)
     for i, e in enumerate(ends):
         cid = "e%d" % i
@@ -258,8 +276,8 @@ def run(tier, seed):
         x = e["cmds"][0]
         meta[cid] = ("session:%s(%s)%s end=%s%s" % (x["cmd"], re.sub(r"[0-9]", "#", x["arg"])[:12],
                                                   ("[" + "|".join(b[:10] for b in x["body"]) + ("]" if x["closed"] else "")) if "body" in x else "",
-                                                  e["end"], "@" + cpu if cpu != "msp430" else ""), script[:3000])
-        jobs.append((exe, wd, cid, "t.hex", good["hex"], ["-" + cpu], script))
+                                                  e["end"], ("@" + cpu if cpu != "msp430" else "") + ("@nocpu" if i % 7 == 3 else "")), script[:3000])
+        jobs.append((exe, wd, cid, "t.hex", good["hex"], ["-" + cpu] if i % 7 != 3 else [], script))
     # register names: every `set` argument class of UtilSession against every simulator (each has its own name parser)
     from .. import codec as K
     setargs = sorted({x["arg"] for sq in sessions for x in sq if x["cmd"] == "set" and "=" in x["arg"]})
@@ -271,6 +289,16 @@ def run(tier, seed):
             cid = "r%d_%d" % (si, ai)
             script = "set %s\nregisters\nclear %s\nquit\n" % (a, a.split("=")[0])
             meta[cid] = ("session:set(%s)@%s" % (re.sub(r"[0-9]", "#", a), cpu), script)
+            jobs.append((exe, wd, cid, "t.hex", good["hex"], ["-" + cpu], script))
+    # RAM dumps: every argument class of UtilSession against every simulator (several have a dump_ram of their own)
+    dumpargs = sorted({x["arg"] for sq in sessions for x in sq if x["cmd"] == "dumpram"})
+    if len(dumpargs) < 10:
+        raise C.InfraError("dumpram arguments %d" % len(dumpargs))
+    for si, cpu in enumerate(sims):
+        for ai, a in enumerate(dumpargs):
+            cid = "d%d_%d" % (si, ai)
+            script = "dumpram %s\ndump_ram %s\nquit\n" % (a, a)
+            meta[cid] = ("session:dumpram(%s)@%s" % (re.sub(r"[0-9]", "#", a)[:12], cpu), script)
             jobs.append((exe, wd, cid, "t.hex", good["hex"], ["-" + cpu], script))
     # command lines: options with, without and with malformed arguments, in pairs, with and without a file
     cmdl = []
